@@ -684,27 +684,15 @@ func engineB(c *core.Ctx) error {
 			defer wg.Done()
 			sem <- struct{}{}
 			defer func() { <-sem }()
-			var records []any
+			// records[0] is a neutral record (TLC reports a failure of the very first
+			// record as "violated by the initial state" without a counterexample the
+			// runtime can index), the last one is the canary
+			records := []any{neutralRecord()}
 			for _, r := range recs[j.lo:j.hi] {
 				records = append(records, r.Rec)
 			}
-			canary := -1
-			for i, r := range recs[j.lo:j.hi] {
-				hs := tolist(r.Rec["hits"])
-				if len(hs) >= 2 {
-					cp := map[string]any{}
-					for k, v := range r.Rec {
-						cp[k] = v
-					}
-					sw := append([]int{}, hs...)
-					sw[0], sw[len(sw)-1] = sw[len(sw)-1], sw[0]
-					cp["hits"] = sw
-					records = append(records, cp)
-					canary = len(records) - 1
-					_ = i
-					break
-				}
-			}
+			records = append(records, canaryRecord())
+			canary := len(records) - 1
 			bad, err := c.JudgeRecords("JudgeCollector", "JudgeCollector.cfg", records, 12, core.Timeout(15*time.Minute))
 			mu.Lock()
 			defer mu.Unlock()
@@ -715,17 +703,21 @@ func engineB(c *core.Ctx) error {
 				return
 			}
 			c.Traces(1)
-			if canary >= 0 {
-				if bad[canary] != "RecHits" {
-					if firstErr == nil {
-						firstErr = fmt.Errorf("engine B: the judge accepted a corrupted record (canary), verdict %q", bad[canary])
-					}
-					return
+			if bad[canary] != "RecHits" && len(bad) < 12 {
+				if firstErr == nil {
+					firstErr = fmt.Errorf("engine B: the judge accepted the corrupted canary record, verdict %q", bad[canary])
 				}
-				delete(bad, canary)
+				return
 			}
+			delete(bad, canary)
 			for bi, inv := range bad {
-				r := recs[j.lo+bi]
+				if bi == 0 {
+					if firstErr == nil {
+						firstErr = fmt.Errorf("engine B: the judge rejected the neutral record (%s)", inv)
+					}
+					continue
+				}
+				r := recs[j.lo+bi-1]
 				g := groups[r.Index]
 				what := fmt.Sprintf("%s on %s index, query %s, request %s: hits %v total %v maxscore-rank %v rejected by judge invariant %s",
 					r.Rq.Mode, g.rec.Kind, r.Query, core.Canon(r.Rq), r.Rec["hits"], r.Rec["total"], r.Rec["maxs"], inv)
@@ -753,6 +745,22 @@ func engineB(c *core.Ctx) error {
 	c.Extra("engineB_requests", len(recs))
 	c.Extra("engineB_indexes", len(groups))
 	return firstErr
+}
+
+func scoreDesc() []KeySpec { return []KeySpec{{Kind: "score", Desc: true, Mode: "first"}} }
+
+// neutralRecord is accepted by every invariant of the judge.
+func neutralRecord() map[string]any {
+	return map[string]any{"sort": scoreDesc(), "seen": []Match{}, "mode": "page", "size": 1, "skip": 0,
+		"key": [][]int{}, "hits": []int{}, "total": 0, "maxs": 0}
+}
+
+// canaryRecord must be rejected by RecHits: the two hits are swapped (the
+// best-scoring match 3 has to come first).
+func canaryRecord() map[string]any {
+	e := [][]int{{}, {}, {}}
+	return map[string]any{"sort": scoreDesc(), "seen": []Match{{ID: 1, S: 1, K: e}, {ID: 2, S: 1, K: e}, {ID: 3, S: 2, K: e}},
+		"mode": "page", "size": 2, "skip": 0, "key": [][]int{}, "hits": []int{1, 3}, "total": 3, "maxs": 2}
 }
 
 func tolist(v any) []int {
@@ -800,12 +808,12 @@ func replayB(c *core.Ctx, raw json.RawMessage) error {
 	rec := g.record(art.Query, art.Rq, obs)
 	c.Eval(1)
 	c.Sample(rec)
-	bad, err := c.JudgeRecords("JudgeCollector", "JudgeCollector.cfg", []any{rec}, 1)
+	bad, err := c.JudgeRecords("JudgeCollector", "JudgeCollector.cfg", []any{neutralRecord(), rec}, 1)
 	if err != nil {
 		return err
 	}
 	c.Traces(1)
-	if inv, ok := bad[0]; ok {
+	if inv, ok := bad[1]; ok {
 		what := fmt.Sprintf("replayed %s request %s: hits %v total %v rejected by %s", art.Rq.Mode, core.Canon(art.Rq), rec["hits"], rec["total"], inv)
 		if inv == "RecModel" {
 			c.Drift(what)
